@@ -285,13 +285,17 @@ func embedCases() []*Case {
 	var out []*Case
 	for _, target := range []string{"Leaf", "Plain", "Rich"} {
 		for _, nullable := range []bool{false, true} {
-			for _, tag := range []bool{false, true} {
+			for _, tag := range []string{"false", "true", "named"} {
 				f := &dsl.Field{Name: target, Num: 1, T: dsl.Msg, Ref: target, Embed: true}
 				if !nullable {
 					nn(f)
 				}
-				if tag {
+				switch tag {
+				case "true":
 					f.JSONTag = dsl.S("")
+				case "named":
+					// a json tag on the embedding field names nothing in the schema: the children are still flattened
+					f.JSONTag = dsl.S("meta_" + strings.ToLower(target) + ",omitempty")
 				}
 				root := &dsl.Message{Name: "Root", Fields: []*dsl.Field{f, {Name: "Tail", Num: 2, T: dsl.String}}}
 				n := "nonnull"
@@ -407,7 +411,12 @@ func wrap(outer string, inner string, pos string) *dsl.Message {
 		panic(pos)
 	}
 	m.Fields = append([]*dsl.Field{f}, m.Fields...)
-	m.Fields = append(m.Fields, &dsl.Field{Name: "Side", Num: 10, T: dsl.String})
+	// (a distinct name per level: a message that embeds another one must not repeat its field names)
+	side := "Side"
+	if outer != "Root" {
+		side = outer + "Side"
+	}
+	m.Fields = append(m.Fields, &dsl.Field{Name: side, Num: 10, T: dsl.String})
 	return m
 }
 
